@@ -2,9 +2,16 @@ package bbolt
 
 import (
 	"syscall"
+
+	"go.etcd.io/bbolt/internal/common"
 )
 
 // fdatasync flushes written data to a file descriptor.
 func fdatasync(db *DB) error {
+	if common.VerifEnabled {
+		if _, err := common.VerifIO(db, "sync", 0, nil); err != nil {
+			return err
+		}
+	}
 	return syscall.Fdatasync(int(db.file.Fd()))
 }
